@@ -9,7 +9,7 @@ import text_streams as ts
 ID = 'C13'
 LEAN_MODULE = 'Proofs.C13'
 THEOREMS = ['Fsic.C13.' + n for n in [
-    'matchAt_consumes', 'scanGo_spans', 'scanTerms_spans', 'split_yields_checked', 'unterminated_fence_swallows',
+    'term_re_group_order', 'matchAt_consumes', 'scanGo_spans', 'scanTerms_spans', 'split_yields_checked', 'unterminated_fence_swallows',
     'format_safe', 'format_safe_arity', 'format_fails_manual_field', 'format_fails_empty_field',
     'format_drops_escaped_term', 'unpack_fails_without_equals', 'parseBody_errors', 'parse_error_classes',
     'parseScript_stops_at_first_error', 'pyInt_accepts']]
